@@ -31,21 +31,29 @@ class _SourceProxy:
         return getattr(self._inner, name)
 
 
+_PARAMS = {}  # id(tokenizer) -> (min_length, max_length, max_continuous_silence, init_min, init_max_silence, mode, verdict log holder)
+
+
 def _check(tk, frames, verdicts, tokens, complete, where):
     try:
+        P = _PARAMS.get(id(tk))
+        if P is None:
+            STATE["monitor_errors"].append("tokenizer constructed outside the monitor")
+            return
+        min_length, max_length, max_sil, init_min, init_max_silence, mode = P[:6]
         STATE["tokens"] += len(tokens)
         STATE["frames"] += len(frames)
         toks = [tuple(t) for t in tokens]
         probs = list(inv.c01(frames, toks))
-        strict = bool(tk._mode & 2)
-        drop = bool(tk._mode & 4)
-        probs += inv.c02(toks, tk.min_length, tk.max_length, strict)
+        strict = bool(mode & 2)
+        drop = bool(mode & 4)
+        probs += inv.c02(toks, min_length, max_length, strict)
         if len(verdicts) == len(frames):
             v = [1 if x else 0 for x in verdicts]
-            probs += inv.c03(v, toks, tk.max_length, tk.max_continuous_silence, drop, tk.init_min, tk.init_max_silent)
-            if complete and tk.init_min <= 1 and tk.max_continuous_silence >= 0:
+            probs += inv.c03(v, toks, max_length, max_sil, drop, init_min, init_max_silence)
+            if complete and init_min <= 1 and max_sil >= 0:
                 STATE["checked_c04"] += 1
-                exp = seg(v, tk.min_length, tk.max_length, tk.max_continuous_silence, strict, drop)
+                exp = seg(v, min_length, max_length, max_sil, strict, drop)
                 got = [(s, e) for _, s, e in toks]
                 if got != exp:
                     probs.append(("tokens-differ-from-model", {"observed": got[:20], "expected": exp[:20]}))
@@ -55,7 +63,7 @@ def _check(tk, frames, verdicts, tokens, complete, where):
             if len(STATE["violations"]) < 50:
                 detail = dict(detail)
                 detail["where"] = where
-                detail["params"] = [tk.min_length, tk.max_length, tk.max_continuous_silence, tk.init_min, tk.init_max_silent, tk._mode]
+                detail["params"] = list(P[:6])
                 detail["validity"] = "".join("A" if x else "a" for x in verdicts)[:200]
                 STATE["violations"].append([key, detail])
     except Exception as exc:  # never disturb the tests
@@ -67,27 +75,47 @@ def _install():
     orig_tokenize = cls.tokenize
     orig_init = cls.__init__
 
+    import inspect
+
+    sig = inspect.signature(orig_init)
+
     def __init__(self, validator, *a, **kw):
-        orig_init(self, validator, *a, **kw)
+        # Observation without private attributes: the verdict the tokenizer RECEIVES for each frame is recorded by handing
+        # the constructor a transparent wrapper of the caller's validator; the parameters are taken from the call itself.
+        holder = {"log": None}
+        wrapped = validator
         try:
-            inner = self._is_valid
-            tk = self
-
-            def recording(frame):
-                r = inner(frame)
-                log = getattr(tk, "_vf_verdicts", None)
-                if log is not None:
-                    log.append(bool(r))
-                return r
-
-            self._is_valid = recording
+            fn = validator if callable(validator) else (validator.is_valid if isinstance(validator, _core.DataValidator) else None)
+            if fn is not None:
+                def wrapped(frame, _fn=fn, _holder=holder):
+                    r = _fn(frame)
+                    log = _holder["log"]
+                    if log is not None:
+                        log.append(bool(r))
+                    return r
+        except Exception as exc:
+            STATE["monitor_errors"].append(repr(exc)[:300])
+            wrapped = validator
+        orig_init(self, wrapped, *a, **kw)
+        try:
+            if getattr(self, "validator", None) is wrapped and wrapped is not validator:
+                self.validator = validator  # the public attribute keeps showing what the caller passed
+            b = sig.bind(self, validator, *a, **kw)
+            b.apply_defaults()
+            g = b.arguments
+            _PARAMS[id(self)] = (g["min_length"], g["max_length"], g["max_continuous_silence"], g["init_min"], g["init_max_silence"], g["mode"], holder)
+            if len(_PARAMS) > 20000:
+                for k in list(_PARAMS)[:10000]:
+                    del _PARAMS[k]
         except Exception as exc:
             STATE["monitor_errors"].append(repr(exc)[:300])
 
     def tokenize(self, data_source, callback=None, generator=False):
         where = os.environ.get("PYTEST_CURRENT_TEST", "?")
         frames, verdicts = [], []
-        self._vf_verdicts = verdicts
+        P = _PARAMS.get(id(self))
+        if P is not None:
+            P[6]["log"] = verdicts
         proxy = _SourceProxy(data_source, frames)
         STATE["tokenize_calls"] += 1
         if callback:
